@@ -149,6 +149,15 @@ def flagCorners (cenv : CornerEnv) (twoPi : Rat) (order : Nat) (fv : List Nat) (
 """
 
 
+RUN_HEADER = ("import Mouette.Generated.C15Feat\nset_option linter.unusedVariables false\nnamespace Mouette.Generated.C15Src\n"
+              "open Mouette.PySrc Mouette.Features Mouette.FeatSource Mouette.SurfSource\n\n")
+RUN_FALLBACK = """/- the translator refused the current source: stubs (the theorems of Props/C15Source do not hold for them) -/
+def clear : (List Nat × List Nat × DegMap × LocDict) := ([0], [0], [], [])
+def run (env : FeatEnv) (v2e : Nat → List Nat) (onlyBorder : Bool) (featV0 featE0 : Option BoolMap) :
+    (List Nat × List Nat × DegMap × LocDict × BoolMap × BoolMap) := ([0], [0], [], [], [], [])
+"""
+
+
 def translate_sites():
     out = []
     st = {}
@@ -170,6 +179,15 @@ def translate_sites():
                "attribute entry is written) and of _flag_corners (angle accumulation, |angle| < 2π/order rule, round)", feat)
     out.append(r)
     T.write_generated("C15Feat", (st["feat"] if r["ok"] else FEAT_FALLBACK) + "\nend Mouette.Generated.C15Src\n", FEAT_HEADER)
+
+    def run():
+        st["run"] = run_defs()
+        return {"functions": ["run", "clear"], "lean_defs": st["run"].count("\ndef ") + st["run"].startswith("def ")}
+    r = T.site("features.py: bodies of FeatureEdgeDetector.run and clear (which containers are re-created, how the two `feature` attributes are "
+               "opened and cleared, the order of the three passes, the container loops: feature_edges / feature_vertices / local_feat_edges / "
+               "feature_degrees, the final flagging of the vertex attribute)", run)
+    out.append(r)
+    T.write_generated("C15RunSrc", (st["run"] if r["ok"] else RUN_FALLBACK) + "\nend Mouette.Generated.C15Src\n", RUN_HEADER)
     return out
 
 
@@ -218,6 +236,83 @@ CORNER_STMTS = [
     ("if mesh.vertices.has_attribute('corners'):\n    self.corners = mesh.vertices.get_attribute('corners')\n"
      "else:\n    self.corners = mesh.vertices.create_attribute('corners', int)", _corners_attr),
 ]
+
+
+# ---- run() / clear() -------------------------------------------------------------------------------------------------
+def _loc_append(c, b, env, nxt, ind, exits):
+    pre = []
+    k, _ = c.E(b["M_k"], env, pre); i, ti = c.E(b["M_i"], env, pre)
+    if pre or ti != "Nat" or env.get("p0.local_feat_edges") != "LocDict": raise c.err("unsupported append into local_feat_edges")
+    return f"{ind}let p0_local_feat_edges : LocDict := locAppend p0_local_feat_edges {k} {i}\n" + nxt(env)
+
+
+def _self_clear(c, b, env, nxt, ind, exits):
+    env2 = dict(env)
+    env2.update({"p0.feature_vertices": "List Nat", "p0.feature_edges": "List Nat", "p0.feature_degrees": "DegMap", "p0.local_feat_edges": "LocDict"})
+    return (f"{ind}let (p0_feature_vertices, p0_feature_edges, p0_feature_degrees, p0_local_feat_edges) : "
+            f"(List Nat × List Nat × DegMap × LocDict) := clear\n") + nxt(env2)
+
+
+RUN_EXPRS = [
+    ("set()", "([] : List Nat)", "List Nat"),
+    ("Attribute(int)", "([] : DegMap)", "DegMap"),
+    ("dict()", "([] : LocDict)", "LocDict"),
+    ("mesh.vertices.has_attribute('feature')", "featV0.isSome", "Bool"),
+    ("mesh.vertices.get_attribute('feature')", "(featV0.getD [])", "BoolMap"),
+    ("mesh.vertices.create_attribute('feature', bool)", "([] : BoolMap)", "BoolMap"),
+    ("mesh.edges.has_attribute('feature')", "featE0.isSome", "Bool"),
+    ("mesh.edges.get_attribute('feature')", "(featE0.getD [])", "BoolMap"),
+    ("mesh.edges.create_attribute('feature', bool)", "([] : BoolMap)", "BoolMap"),
+    ("self._add_hard_edges_to_features(mesh, M_f)", "(addHardEdgesToFeatures env onlyBorder {f})", "BoolMap"),
+    ("self._add_sharp_angles_to_features(mesh, M_f)", "(addSharpAnglesToFeatures env onlyBorder {f})", "BoolMap"),
+    ("self._add_border_to_features(mesh, M_f)", "(addBorderToFeatures env onlyBorder {f})", "BoolMap"),
+    ("mesh.edges[M_e]", "(env.edge {e})", "(Nat × Nat)"),
+    ("enumerate(mesh.connectivity.vertex_to_edges(M_v))", "((v2e {v}).zipIdx.map fun p => (p.2, p.1))", "List (Nat × Nat)"),
+]
+RUN_SUBS = {"BoolMap": {"get": ("(boolGet {x} {k})", "Bool", False), "set": "boolSet {x} {k} {v}"},
+            "LocDict": {"set": "({k}, {v}) :: {x}"},
+            "DegMap": {"set": "({k}, {v}) :: {x}", "aug": "bump {x} {k}"}}
+RUN_METHODS = {"List": {"add": "setAdd {x} {a}"}}
+# statements of run() that are recognised and left out of the translated text (they must be there, in this shape)
+RUN_REQUIRED = [
+    "if mesh.faces.has_attribute('normals'):\n    self.fnormals = mesh.faces.get_attribute('normals')\nelse:\n    self.fnormals = face_normals(mesh, persistent=False)",
+    "if self.flag_corners:\n    self._flag_corners(mesh)",
+    "if self.compute_feature_graph:\n    self._compute_feature_graph(mesh)\n    if self.flag_corners:\n        self._compute_corner_point_cloud(mesh)",
+]
+
+
+def _bool_clear(c, b, env, nxt, ind, exits):
+    x = b["M_x"]
+    if not (isinstance(x, ast.Name) and env.get(x.id) == "BoolMap"): return None
+    return f"{ind}let {x.id} : BoolMap := []\n" + nxt(env)
+
+
+def run_defs():
+    tree, _ = T.load(FEAT_FILE)
+    out = []
+    v = PL.Vocab(["self"], [None], exprs=RUN_EXPRS, ret="(List Nat × List Nat × DegMap × LocDict)",
+                 fall="(p0_feature_vertices, p0_feature_edges, p0_feature_degrees, p0_local_feat_edges)")
+    out.append(PL.compile_function("clear", T.find_def(tree, "FeatureEdgeDetector.clear"), v,
+                                   "`FeatureEdgeDetector.clear`: (`feature_vertices`, `feature_edges`, `feature_degrees`, `local_feat_edges`) re-created"))
+    fn = T.find_def(tree, "FeatureEdgeDetector.run")
+    stripped = PL._strip_calls(fn, ["self.log"])
+    for req in RUN_REQUIRED:
+        want = ast.unparse(ast.parse(req).body[0])
+        if sum(1 for st in stripped.body if ast.unparse(st) == want) != 1:
+            raise TranslateError(f"run: the statement `{req.splitlines()[0]} …` is not there (once, at top level, in the expected shape)")
+    v = PL.Vocab(["self", "mesh"], [None, None], exprs=RUN_EXPRS, subs=RUN_SUBS, methods=RUN_METHODS, empties=["List Nat"],
+                 stmts=[("self.clear()", _self_clear), ("self.local_feat_edges[M_k].append(M_i)", _loc_append), ("M_x.clear()", _bool_clear)],
+                 drop=RUN_REQUIRED,
+                 ctx="(env : FeatEnv) (v2e : Nat → List Nat) (onlyBorder : Bool) (featV0 featE0 : Option BoolMap)", ctxargs="env v2e onlyBorder featV0 featE0",
+                 ret="(List Nat × List Nat × DegMap × LocDict × BoolMap × BoolMap)",
+                 fall="(p0_feature_vertices, p0_feature_edges, p0_feature_degrees, p0_local_feat_edges, v0, v1)")
+    v.iters = {"BoolMap": ("(boolKeys {x})", "Nat")}
+    v.drop_calls = ["self.log"]
+    out.append(PL.compile_function("run", fn, v,
+                                   "`FeatureEdgeDetector.run`: (`feature_vertices`, `feature_edges`, `feature_degrees`, `local_feat_edges`, vertex attribute "
+                                   "`feature`, edge attribute `feature`) at the end; the normals branch, `_flag_corners` and the feature-graph outputs are "
+                                   "recognised and left out (they write none of these)"))
+    return "\n".join(out)
 
 
 def feature_defs():
